@@ -223,6 +223,9 @@ func (s *Solver) Check() SatResult {
 		break
 	}
 	s.Time += time.Since(start)
+	if s.log != nil {
+		fmt.Fprintf(s.log, "; -> %s in %.3fs\n", res, time.Since(start).Seconds())
+	}
 	switch res {
 	case Sat:
 		s.SatN++
